@@ -10,6 +10,7 @@ import (
 	"os"
 	"sort"
 	"strings"
+	"syscall"
 	"time"
 
 	"github.com/gnolang/gno/gno.land/pkg/sdk/vm"
@@ -138,7 +139,6 @@ func probe() {
 	run("overdraft", []std.Msg{send(a, b, 5), send(a, b, 1_000_000_000)}, 10_000_000, a)
 }
 
-
 // ---------------------------------------------------------------- scenario generator + recorder
 
 type msgSpec struct {
@@ -185,14 +185,14 @@ func (r *recorder) emit(v any) {
 }
 
 type world struct {
-	e      *appenv.Env
-	accts  map[string]*appenv.Account
-	rng    *rand.Rand
-	rec    *recorder
-	maxGas int64
-	counts map[string]int
+	e                   *appenv.Env
+	accts               map[string]*appenv.Account
+	rng                 *rand.Rand
+	rec                 *recorder
+	maxGas              int64
+	counts              map[string]int
 	burnBase, burnSlope int64
-	restart bool
+	restart             bool
 }
 
 func (w *world) addr(name string) crypto.Address {
@@ -503,7 +503,7 @@ func (w *world) scenario(blocks int) {
 				}
 			}
 		case p < 90: // the block gas limit is crossed by an otherwise successful tx
-			r := int64(2_300_000 + w.rng.Intn(1_200_000))                 // remaining block gas after the filler
+			r := int64(2_300_000 + w.rng.Intn(1_200_000)) // remaining block gas after the filler
 			fill := &txSpec{Signer: "c", Seq: nextSeq["c"], SigOK: true, Fee: 1000, GW: w.maxGas,
 				Msgs: []msgSpec{{Kind: "burnn", To: "b", Var: "x", n: w.burnIters(w.maxGas - r)}}}
 			g2 := r + 1_500_000 + int64(w.rng.Intn(1_500_000))
@@ -610,39 +610,47 @@ func record(f *mbt.Flags) {
 	mbt.Summary(sum)
 }
 
-
 // ---------------------------------------------------------------- C10: every Gno program stops within its gas limit
 
 var workPrograms = map[string]string{
-	"loop":      `package main
+	"loop": `package main
 func main() { for { } }`,
 	"recursion": `package main
 func f(n int) int { return f(n+1) + 1 }
 func main() { println(f(0)) }`,
 	"slicegrow": `package main
 func main() { s := []int{1}; for { s = append(s, s...) } }`,
-	"strgrow":   `package main
+	"strgrow": `package main
 func main() { s := "ab"; for { s = s + s } }`,
-	"mapgrow":   `package main
+	"mapgrow": `package main
 func main() { m := map[int]int{}; for i := 0; ; i++ { m[i] = i } }`,
-	"alloc":     `package main
+	"alloc": `package main
 type T struct{ a, b, c [16]int }
 func main() { var keep []*T; for { keep = append(keep, &T{}) } }`,
-	"native":    `package main
+	"native": `package main
 import "crypto/sha256"
 func main() { b := []byte("x"); for { h := sha256.Sum256(b); b = h[:] } }`,
-	"strconv":   `package main
+	"strconv": `package main
 import "strconv"
 func main() { n := 0; for i := 0; ; i++ { n += len(strconv.Itoa(i)) } }`,
-	"closure":   `package main
+	"closure": `package main
 func main() { var fs []func() int; for i := 0; ; i++ { j := i; fs = append(fs, func() int { return j }) } }`,
 	"realmwrite": `package main
 import "gno.land/r/verif/atom"
 func main(cur realm) { for i := 0; ; i++ { atom.Set(cross(cur), "x", i%50+1) } }`,
-	"defer":     `package main
+	"defer": `package main
 func main() { for { func() { defer func() { recover() }(); panic("x") }() } }`,
-	"bigmul":    `package main
+	"bigmul": `package main
 func main() { x := uint64(3); for { x = x*x + 1 } }`,
+}
+
+// cpuTime is the user+system CPU time consumed by this process so far.
+func cpuTime() time.Duration {
+	var ru syscall.Rusage
+	if err := syscall.Getrusage(syscall.RUSAGE_SELF, &ru); err != nil {
+		mbt.Die("getrusage: %v", err)
+	}
+	return time.Duration(ru.Utime.Nano() + ru.Stime.Nano())
 }
 
 func terminate(f *mbt.Flags) {
@@ -665,6 +673,9 @@ func terminate(f *mbt.Flags) {
 	}
 	names := []string{}
 	for n := range workPrograms {
+		if f.Extra != "" && f.Extra != "restart" && n != f.Extra {
+			continue // -x <program>: run a single program (diagnosis / replay)
+		}
 		names = append(names, n)
 	}
 	sort.Strings(names)
@@ -688,10 +699,29 @@ func terminate(f *mbt.Flags) {
 				r := e.Deliver(tx)
 				ch <- out{r.IsOK(), appenv.ErrClass(r.Error), r.GasUsed, r.Log}
 			}()
-			// wall-clock bound: 1 s per million gas + 20 s, two orders of magnitude above the measured rate
-			bound := time.Duration(gw/1_000_000)*time.Second + 20*time.Second
+			// CPU-time bound (process user+sys time, so machine load cannot fake a hang): 20 s CPU per million gas
+			// + 120 s, more than an order of magnitude above the measured rate (<= 1 s CPU per million gas).
+			// There is no wall-clock verdict: the check's outer driver timeout makes a stalled machine INCONCLUSIVE.
+			cpuBound := time.Duration(gw/1_000_000)*20*time.Second + 120*time.Second
+			cpu0 := cpuTime()
+			expired := make(chan struct{})
+			done := make(chan struct{})
+			go func() {
+				for {
+					select {
+					case <-done:
+						return
+					case <-time.After(300 * time.Millisecond):
+						if cpuTime()-cpu0 > cpuBound {
+							close(expired)
+							return
+						}
+					}
+				}
+			}()
 			select {
 			case o := <-ch:
+				close(done)
 				el := time.Since(t0)
 				runs++
 				rate := el.Seconds() / (float64(gw) / 1e6)
@@ -711,8 +741,8 @@ func terminate(f *mbt.Flags) {
 				if runs <= 3 {
 					mbt.Sample(map[string]any{"program": n, "gw": gw, "cls": o.cls, "used": o.used, "ms": el.Milliseconds()})
 				}
-			case <-time.After(bound):
-				mbt.Mismatch("C10:program-did-not-stop:"+n, fmt.Sprintf("program %q with gas wanted %d still running after %s", n, gw, bound), map[string]any{"program": n, "gw": gw})
+			case <-expired:
+				mbt.Mismatch("C10:program-did-not-stop:"+n, fmt.Sprintf("program %q with gas wanted %d still running after %s of CPU time", n, gw, cpuBound), map[string]any{"program": n, "gw": gw})
 				mbt.Summary(map[string]any{"programs_run": runs, "stopped": oog})
 				mbt.Flush()
 				os.Exit(0) // the stuck goroutine cannot be cancelled
